@@ -63,16 +63,17 @@ func VerifC12CidxOpen() {
 }
 
 // ---------------------------------------------------------------------------------------------
-// C12.cidx.query — a file with a well-formed 26-byte header (no metadata) whose value size is
-// one of the structure-aware candidates, one bucket header and E bytes of entries.
+// C12.cidx.lookup / C12.cidx.load — a file with a well-formed 26-byte header (no metadata)
+// whose value size is one of the structure-aware candidates, one bucket header and E bytes of
+// entries.
 // Symbolic: NumBuckets, the bucket number asked for, the bucket header's hash domain, entry
-// count and hash length, every entry byte, the key hash. Structure-aware candidates: value
-// size, the bucket's file offset (valid, off by one, 0, end of file +-1, 2^47, 2^48-1).
-// GetBucket, Bucket.Lookup (with and without prefetch), Bucket.Load.
-func VerifC12CidxQuery() {
+// count, hash length and padding byte, every entry byte, the key hash.
+// Structure-aware candidates: value size, the bucket's file offset (valid, off by one, 0, end
+// of file +-1, 2^47, 2^48-1).
+func verifC12CidxBucket(mode int) (*Bucket, uint64, int) {
 	limit := verifParam("alloc", 1<<20)
 	verifAllocLimit(int64(limit))
-	vsCands := []uint64{1, 2, 36, 252, 253, 255, 256, 1<<32 + 5}
+	vsCands := []uint64{1, 36, 253, 256, 2, 252, 255, 1<<32 + 5}
 	vs := vsCands[verifChoice("valuesize", verifParam("vsizes", len(vsCands)))]
 	stride := uint8(3 + uint8(vs))
 	E := verifParam("entries", 3) * int(stride)
@@ -88,7 +89,7 @@ func VerifC12CidxQuery() {
 	hdr[24] = Version
 	hdr[25] = 0
 	total := 26 + bucketHdrLen + E
-	offCands := []uint64{26 + bucketHdrLen, 26 + bucketHdrLen + 1, 0, uint64(total - 1), uint64(total), uint64(total + 1), 1 << 47, 1<<48 - 1}
+	offCands := []uint64{26 + bucketHdrLen, uint64(total + 1), 0, 1<<48 - 1, 26 + bucketHdrLen + 1, uint64(total - 1), uint64(total), 1 << 47}
 	bh := BucketHeader{
 		HashDomain: verifU32("hashDomain"),
 		NumEntries: verifU32("numEntries"),
@@ -103,12 +104,24 @@ func VerifC12CidxQuery() {
 
 	db, err := Open(bytes.NewReader(data))
 	if err != nil {
-		verifAssert(nb == 0, "C12.cidx.query: a well-formed header was rejected")
+		// sanity of the harness itself: a header the builder can produce must open
+		verifAssert(nb == 0 || vs > 252, "C12.cidx: a well-formed header was rejected")
+		verifReach("open-rejected")
 		verifReach("end")
-		return
+		return nil, vs, limit
 	}
-	mode := verifChoice("mode", 3) // 0 lookup, 1 lookup with prefetch, 2 load
 	db.Prefetch(mode == 1)
+	if mode == 1 {
+		// the prefetch buffer length is concretised: keep the entry count to few values
+		verifAssume(bh.NumEntries <= 2 || bh.NumEntries >= 3000)
+	}
+	if mode == 2 {
+		// the capacity of the entry slice is concretised
+		verifAssume(bh.NumEntries <= 3 || bh.NumEntries > uint32(limit/32))
+		// Load decodes out of a large batch buffer: every hash length up to 254 stays inside
+		// its capacity and is concretised
+		verifAssume(bh.HashLen <= 4 || bh.HashLen >= 254)
+	}
 
 	// known defects (see /verif/proposed-fixes/C12-cidx-bucket-fields.md): the stride is
 	// computed in uint8 (value size >= 253 wraps) and the bucket header's hash length is
@@ -116,42 +129,56 @@ func VerifC12CidxQuery() {
 	verifKnownFinding("C12-cidx-stride-wrap", uint8(vs) >= 253)
 
 	i := verifU64("bucket")
+	// bucket 0 has the header built above; a bucket number whose header would lie entirely
+	// inside the entry bytes is the same experiment with a fully symbolic header and is
+	// excluded (bound) unless the number is out of range
+	verifAssume(i == 0 || i > uint64(E/bucketHdrLen) || i >= uint64(nb))
 	b, err := db.GetBucket(uint(i))
 	if err != nil {
-		verifAssert(b == nil, "C12.cidx.query: GetBucket returned both a bucket and an error")
+		verifAssert(b == nil, "C12.cidx: GetBucket returned both a bucket and an error")
 		verifReach("bucket-error")
 		verifReach("end")
+		return nil, vs, limit
+	}
+	verifAssert(b != nil && b.Entries != nil, "C12.cidx: GetBucket returned nil without an error")
+	verifAssert(uint32(i) < nb && i < 1<<32, "C12.cidx: GetBucket accepted a bucket number >= NumBuckets")
+	verifAssert(i == 0 && b.NumEntries == bh.NumEntries && b.HashLen == bh.HashLen && b.FileOffset == bh.FileOffset, "C12.cidx: GetBucket did not load the header of the bucket asked for")
+	verifKnownFinding("C12-cidx-hashlen", uint16(b.HashLen)+uint16(b.OffsetWidth) > uint16(stride))
+	return b, vs, limit
+}
+
+func VerifC12CidxLookup() {
+	mode := verifChoice("prefetch", 2)
+	b, vs, _ := verifC12CidxBucket(mode)
+	if b == nil {
 		return
 	}
-	verifAssert(b != nil && b.Entries != nil, "C12.cidx.query: GetBucket returned nil without an error")
-	verifAssert(uint32(i) < nb && i < 1<<32, "C12.cidx.query: GetBucket accepted a bucket number >= NumBuckets")
-	verifKnownFinding("C12-cidx-hashlen", uint16(b.HashLen)+uint16(b.OffsetWidth) > uint16(stride))
-	switch mode {
-	case 0, 1:
-		if mode == 1 {
-			// prefetch sizes are concretised: keep the entry count to few values
-			verifAssume(b.NumEntries <= 2 || b.NumEntries >= 3000)
-		}
-		verifC12Hash = verifU64("keyhash")
-		val, err := b.Lookup([]byte("k"))
-		if err == nil {
-			verifAssert(len(val) == int(uint8(vs)), "C12.cidx.query: Lookup returned a value of the wrong width")
-			verifReach("lookup-hit")
-		} else {
-			verifAssert(val == nil, "C12.cidx.query: Lookup returned both a value and an error")
-			verifReach("lookup-error")
-		}
-	case 2:
-		big := uint32(limit / 32)
-		verifAssume(b.NumEntries <= 3 || b.NumEntries > big)
-		verifKnownFinding("C12-cidx-load-alloc", b.NumEntries > big && b.NumEntries <= maxEntriesPerBucket)
-		es, err := b.Load(verifChoice("batch", 2)) // batch size 0 (= default 512) or 1
-		if err == nil {
-			verifAssert(uint32(len(es)) <= b.NumEntries, "C12.cidx.query: Load returned more entries than the bucket declares")
-			verifReach("load-ok")
-		} else {
-			verifReach("load-error")
-		}
+	verifC12Hash = verifU64("keyhash")
+	val, err := b.Lookup([]byte("k"))
+	if err == nil {
+		verifAssert(len(val) == int(uint8(vs)), "C12.cidx.lookup: Lookup returned a value of the wrong width")
+		verifReach("lookup-hit")
+	} else {
+		verifAssert(val == nil, "C12.cidx.lookup: Lookup returned both a value and an error")
+		verifReach("lookup-error")
+	}
+	verifReach("end")
+}
+
+func VerifC12CidxLoad() {
+	b, _, limit := verifC12CidxBucket(2)
+	if b == nil {
+		return
+	}
+	big := uint32(limit / 32)
+	verifKnownFinding("C12-cidx-load-alloc", b.NumEntries > big && b.NumEntries <= maxEntriesPerBucket)
+	batches := []int{0, 1, 2} // 0 = default 512
+	es, err := b.Load(batches[verifChoice("batch", verifParam("batches", 3))])
+	if err == nil {
+		verifAssert(uint32(len(es)) <= b.NumEntries, "C12.cidx.load: Load returned more entries than the bucket declares")
+		verifReach("load-ok")
+	} else {
+		verifReach("load-error")
 	}
 	verifReach("end")
 }
